@@ -156,7 +156,54 @@ def fam_polygon(ctx, rng):
         if not cyclic_equal([tuple(p) for p in r2.boundary], [tuple(p) for p in r1.boundary]):
             ctx.violation('Face3D.remove_colinear_vertices:not_idempotent', 'second application changes the result', desc); return
         if abs(r1.area - face.area) > TOL * face.perimeter:
-            ctx.violation('Face3D.remove_colinear_vertices:area', 'area changed by more than tol*perimeter', desc)
+            ctx.violation('Face3D.remove_colinear_vertices:area', 'area changed by more than tol*perimeter', desc); return
+        fam_face_holes(ctx, rng, base, loop, z)
+
+
+def fam_face_holes(ctx, rng, base, loop, z):
+    """Face3D with decorated holes (every rotation, both windings): both clean-ups act on boundary and holes alike"""
+    hbases = G.holes_in(rng, base, rng.randint(1, 2), bits=4)
+    if not hbases:
+        return
+    hloops = []
+    for hb in hbases:
+        hl = decorate(rng, hb)
+        k = rng.randrange(len(hl))
+        hloops.append(hl[k:] + hl[:k])
+    emb = lambda p: (p[0], p[1], z)
+    face = Face3D([P3(emb(p)) for p in loop], holes=[[P3(emb(p)) for p in h] for h in hloops])
+    desc = {'class': 'Face3D', 'loop': loop, 'base': base, 'holes': hloops, 'hole_bases': hbases}
+    ctx.count('clean.Face3D.holes', key=(len(base), len(hbases), sum(len(h) for h in hloops)), sample=desc)
+    for op in ('remove_colinear_vertices', 'remove_duplicate_vertices'):
+        kind = 'Face3D.%s:holes' % op
+        try:
+            r = getattr(face, op)(TOL)
+            r2 = getattr(r, op)(TOL)
+        except Exception as e:
+            ctx.violation(kind + ':raises', '%r' % (e,), desc); return
+        if len(r.holes or ()) != len(hloops):
+            ctx.violation(kind + ':hole_count', '%d holes became %d' % (len(hloops), len(r.holes or ())), desc); return
+        for hb, hl, stored, got in zip(hbases, hloops, face.holes, r.holes):
+            res = [(p.x, p.y) for p in got]
+            st = [(p.x, p.y) for p in stored]
+            if not is_cyclic_subsequence(res, st):
+                ctx.violation(kind + ':order', 'hole vertices are not original vertices in their cyclic order', desc); return
+            if op == 'remove_colinear_vertices':
+                if not (cyclic_equal(res, hb) or cyclic_equal(res, hb[::-1])):
+                    missing = [p for p in hb if p not in res]
+                    ctx.violation(kind + (':corner_removed' if missing else ':redundant_kept'),
+                                  'hole: result %d vertices, base %d' % (len(res), len(hb)), desc); return
+            else:
+                dedup = [p for i, p in enumerate(st) if p != st[i - 1]]
+                if len(res) > 1 and any(res[i] == res[i - 1] for i in range(len(res))):
+                    ctx.violation(kind + ':duplicate_kept', 'a hole keeps two consecutive equal vertices (first/last included)', desc); return
+                if not cyclic_equal(res, dedup):
+                    ctx.violation(kind + ':wrong_set', 'hole is not the loop without consecutive duplicates', desc); return
+        for a, b in zip(r.holes, r2.holes):
+            if not cyclic_equal([tuple(p) for p in a], [tuple(p) for p in b]):
+                ctx.violation(kind + ':not_idempotent', 'second application changes a hole', desc); return
+        if abs(r.area - face.area) > TOL * face.perimeter:
+            ctx.violation(kind + ':area', 'area changed by more than tol*perimeter', desc); return
 
 
 def fam_polyline(ctx, rng):
